@@ -164,6 +164,7 @@ def run(ctx, report):
             report.count("dtype:" + k)
         shutil.rmtree(path, ignore_errors=True) if os.path.isdir(path) else (os.path.exists(path) and os.remove(path))
     feature_cases(ctx, report)
+    isolated_feature_cases(ctx, report)
 
 
 def feature_cases(ctx, report):
@@ -178,6 +179,15 @@ def feature_cases(ctx, report):
     frames.append(("multi-level column labels, hive", mi, {"row_group_offsets": [0, 3], "file_scheme": "hive"}))
     js = pd.DataFrame({"j": [{"a": 1}, [1, 2], None, "s", {"b": [1, {"c": None}]}, 7], "t": ["ab", "cd", "ef", "gh", "ij", "kl"]})
     frames.append(("json objects + fixed-width text", js, {"object_encoding": {"j": "json", "t": "utf8"}, "fixed_text": {"t": 2}, "row_group_offsets": [0, 4]}))
+    # a row-group list that does not start at 0 (either refused or every row written), an index level named like a data column
+    # (either refused or both kept), an index whose real name merely starts like the placeholder for "unnamed"
+    plain = pd.DataFrame({"a": np.arange(5, dtype="int64"), "b": ["p", "q", "r", "s", "t"]})
+    frames.append(("row_group_offsets not starting at 0", plain, {"row_group_offsets": [2, 4]}))
+    clash = pd.DataFrame({"x": np.arange(4, dtype="int64"), "v": [1.5, 2.5, 3.5, 4.5]},
+                         index=pd.MultiIndex.from_arrays([[7, 7, 8, 8], ["a", "b", "a", "b"]], names=["x", "y"]))
+    frames.append(("index level named like a column", clash, {"write_index": True}))
+    odd = pd.DataFrame({"a": np.arange(3, dtype="int64")}, index=pd.Index([10, 20, 30], name="__index_level_0__x"))
+    frames.append(("index name starting like the unnamed-level placeholder", odd, {"write_index": True}))
     for name, df, opts in frames:
         path = os.path.join(ctx.workdir("c01"), "feature")
         shutil.rmtree(path, ignore_errors=True)
@@ -193,6 +203,9 @@ def feature_cases(ctx, report):
             continue
         try:
             got = fastparquet.ParquetFile(path).to_pandas()
+            if opts.get("write_index") and (list(got.index.names) != list(df.index.names)
+                                            or [str(t) for t in got.index.tolist()] != [str(t) for t in df.index.tolist()]):
+                probs.append(f"index {list(df.index.names)} {df.index.tolist()[:3]} came back as {list(got.index.names)} {got.index.tolist()[:3]}")
             if list(got.columns) != list(df.columns) or list(got.columns.names) != list(df.columns.names):
                 probs.append(f"column labels {list(df.columns)} / level names {list(df.columns.names)} came back as {list(got.columns)} / {list(got.columns.names)}")
             elif len(got) != len(df):
@@ -212,6 +225,64 @@ def feature_cases(ctx, report):
         report.case(("feature", name), True)
         report.count("feature:" + name)
         shutil.rmtree(path, ignore_errors=True) if os.path.isdir(path) else (os.path.exists(path) and os.remove(path))
+
+
+def isolated_feature_cases(ctx, report):
+    """frames whose read may corrupt the interpreter's heap: written, read and compared in a forked child"""
+    import fastparquet
+    import pickle
+    frames = [("multi-index rows + a categorical data column",
+               pd.DataFrame({"x": [1, 2, 3, 4], "c": pd.Categorical(["u", "v", "u", "v"])},
+                            index=pd.MultiIndex.from_arrays([[0, 0, 1, 1], ["a", "b", "a", "b"]], names=["i0", "i1"])), {})]
+    for name, df, opts in frames:
+        path = os.path.join(ctx.workdir("c01"), "feature_iso")
+        if os.path.exists(path):
+            os.remove(path) if os.path.isfile(path) else shutil.rmtree(path, ignore_errors=True)
+        rec = {"check": "roundtrip", "feature": name, "rows": len(df)}
+        ctx.crumb(rec)
+        try:
+            fastparquet.write(path, df, **opts)
+        except Exception as e:  # noqa
+            report.count("write-refused:" + canon_err(e))
+            continue
+        r, w = os.pipe()
+        pid = os.fork()
+        if pid == 0:
+            os.close(r)
+            try:
+                try:
+                    got = fastparquet.ParquetFile(path).to_pandas()
+                    res = ("ok", [tuple(map(str, t)) for t in got.index.tolist()], {c: [str(v) for v in got[c].tolist()] for c in got.columns})
+                except Exception as e:  # noqa
+                    res = ("raised", canon_err(e) + " " + str(e)[:100])
+                with os.fdopen(w, "wb") as f:
+                    pickle.dump(res, f)
+            finally:
+                os._exit(0)
+        os.close(w)
+        with os.fdopen(r, "rb") as f:
+            data = f.read()
+        _, status = os.waitpid(pid, 0)
+        probs, crashed = [], False
+        if os.WIFSIGNALED(status) or not data:
+            crashed = True
+            probs.append(f"the interpreter crashed (signal {os.WTERMSIG(status) if os.WIFSIGNALED(status) else '?'}) while using the frame read back "
+                         "(heap corruption: the index of the result is not a valid MultiIndex)")
+        else:
+            res = pickle.loads(data)
+            if res[0] == "raised":
+                probs.append("read raised after a successful write: " + res[1])
+            else:
+                if res[1] != [tuple(map(str, t)) for t in df.index.tolist()]:
+                    probs.append(f"multi-index values {res[1][:4]} differ from {df.index.tolist()[:4]}")
+                for c in df.columns:
+                    if res[2].get(c) != [str(v) for v in df[c].tolist()]:
+                        probs.append(f"column {c} differs")
+        if probs:
+            report.violation({**rec, "what": "; ".join(probs)[:400], "multiindex_with_categorical": True, "crashed": crashed, "sig": "rt:feature:mi+cat"})
+        report.case(("feature-iso", name), True)
+        report.count("feature:" + name)
+        os.path.exists(path) and (os.remove(path) if os.path.isfile(path) else shutil.rmtree(path, ignore_errors=True))
 
 
 def search(ctx, report):
